@@ -157,6 +157,38 @@ SLOW = [
 ]
 
 
+def deep(mode, cap, base, npre, tagmode, threads, nsched):
+    """npre keys (100..) and the client keys 1..3 all on home bucket `base` of a `cap`-bucket table: the 33rd key is
+    displaced past two full groups into the third group of the TRIANGULAR probe sequence (base+48), the 49th into the
+    fourth (base+96); lookups must walk the same sequence as insertions."""
+    hs = {}
+    for k in list(range(100, 100 + npre)) + [1, 2, 3]:
+        tag = 9 if tagmode == "same" else (k * 7) % 128
+        hs[k] = hval(tag, base + cap * (k % 3))
+    return {"mode": mode, "cap": str(cap), "hashes": hs, "prefill": list(range(100, 100 + npre)), "threads": threads,
+            "nsched": nsched}
+
+
+# deep-probe programs: monitors on every one; the single-thread ones are also compared with the extracted model (one
+# thread = one path of the explorer, i.e. a sequential differential run on 64 / 128 bucket tables)
+DEEP_SEQ = [
+    deep("X", 64, 5, 36, "mix", [["F132", "F135", "C100", "E1", "F1", "C135", "E2", "F2", "F133"]], 1),
+    deep("S", 64, 63, 50, "same", [["F148", "F149", "F133", "E1", "F1", "C148", "F116"]], 1),
+    deep("M", 128, 120, 40, "mix", [["F139", "B1", "F1", "C132", "T2", "F2", "F135"]], 1),
+    deep("X", 128, 0, 52, "mix", [["F151", "F148", "F133", "E1", "C1", "F150"]], 1),
+    deep("S", 64, 48, 33, "mix", [["F132", "E1", "F1", "E2", "F2", "E3", "F3", "F132"]], 1),
+]
+DEEP_CONC = [
+    deep("X", 64, 5, 32, "mix", [["E1", "F1", "F2"], ["E2", "F2", "F1"], ["F1", "C2"]], 4),
+    deep("S", 64, 63, 33, "same", [["E1", "F1", "F132"], ["E2", "F2"], ["F132", "C1", "F2"]], 4),
+    deep("M", 64, 20, 40, "mix", [["B1", "F1", "F139"], ["T2", "F2", "C135"], ["F133", "F1"]], 4),
+    deep("S", 128, 127, 36, "mix", [["E1", "F1", "E3", "F3"], ["E2", "F2", "F135"], ["C134", "F1", "F2"]], 4),
+    deep("X", 128, 100, 49, "mix", [["E1", "F1", "F148"], ["I2", "F2", "C140"]], 4),
+    deep("M", 128, 3, 48, "same", [["E1", "F1"], ["E2", "F2"], ["F147", "C133", "F1"]], 4),
+    deep("S", 64, 16, 47, "mix", [["E1", "F1", "C146"], ["E2", "F2", "F1"], ["E3", "F3"]], 4),
+]
+
+
 def fields(p):
     hs = ",".join("%d:%d" % (k, v) for k, v in sorted((int(k), v) for k, v in p["hashes"].items())) or "-"
     pre = ",".join(str(k) for k in p["prefill"]) or "-"
@@ -204,6 +236,10 @@ def main(argv):
             progs.append(("d%d" % i, p, True))
         for i, p in enumerate(SLOW):
             progs.append(("w%d" % i, p, True))
+        for i, p in enumerate(DEEP_SEQ):
+            progs.append(("q%d" % i, p, True))
+        for i, p in enumerate(DEEP_CONC):
+            progs.append(("p%d" % i, p, False))
         seen = set()
         n_small, n_big = (50, 60) if not thorough else (300, 400)
         for small, n in ((True, n_small), (False, n_big)):
@@ -301,7 +337,9 @@ def main(argv):
                        "sequential prefill, client program, schedule seed, strategy); keys collide completely / share the "
                        "7-bit tag / share the base group / are random; base groups are aimed at the ends of the table "
                        "(wrap-around through the mirror bytes); prefill brings the table(s) to 0, full-2, full-1, full or "
-                       "two-tables-full so that the threads race for the last slots, plus slow-constructor programs (the winner blocks for "
+                       "two-tables-full so that the threads race for the last slots, plus deep-probe programs (64 / 128 buckets, 32-52 keys on one home bucket incl. the table end: keys "
+                       "displaced into the 3rd / 4th group of the triangular probe sequence, looked up during and after; the "
+                       "single-thread ones are also run through the extracted model), plus slow-constructor programs (the winner blocks for "
                        "15 ms of virtual time between its CAS and its tag store while others insert the same / colliding keys), fail on a full fixed table or race on "
                        "the next-pointer CAS (default-constructed head included); strategies: uniform random, round-robin "
                        "with random pre-emptions (no PCT: the BUSY spin-wait needs a fair scheduler); distinct non-trivial = distinct (program, observed outcome) "
